@@ -9,7 +9,7 @@ from harness import timeouts as T
 from harness.base import Results, corpus_lines
 
 RULE = ('case = timeout program (sleep/seq/try-except/raise/timeout block in the 4 forms x '
-        'context-manager|coroutine form, created at entry or earlier; every fourth random program '
+        'context-manager|coroutine form, created at entry or earlier, or (context manager) made by another task than the one that enters it; every fourth random program '
         'also catches / raises CancelledError or TimeoutCancellationError; a further family has '
         'task groups inside) run as a task from virtual time 0 followed, in the same task, by a '
         'long follow-on sleep; exhaustive family: <=3 blocks in every nesting/sibling shape x '
